@@ -192,6 +192,7 @@ main(void)
 	/* value-dependent stack word: measured for one literal top-of-stack value */
 	ASSUME(T0N_STK(&the_ctx)->dp_stack[t0n_dpi - 1] == (uint32_t)(C05_LIT));
 #endif
+	c05_precond(&the_ctx, OP);      /* call-site facts hold in measurement mode too */
 	t0n_dlo = t0n_dhi = t0n_dpi;
 	t0n_rlo = t0n_rhi = t0n_rpi;
 	{
